@@ -38,6 +38,13 @@ class Walk:
 
     def const(self, o):
         c, ty = o["const"], o.get("ty", "")
+        m = re.search(r"promoted\[(\d+)\]$", c)
+        if m and int(m.group(1)) < len(self.b.d.get("promoted", [])):
+            sub = Walk(self.facts, self.b, self.oracle, {})
+            for st in self.b.d["promoted"][int(m.group(1))]:
+                if not st["lhs"]["p"]:
+                    sub.env[st["lhs"]["l"]] = sub.rvalue(st["rv"])
+            return sub.env.get(0, ("opaque", c))
         if ty == "bool":
             return c in ("1", "true")
         if re.fullmatch(r"\d+", c):
@@ -65,6 +72,12 @@ class Walk:
                     v = ("opaque", "?")
             elif isinstance(x, dict) and "dc" in x:
                 continue
+            elif isinstance(x, dict) and ("ix" in x or "cix" in x):
+                k = x["cix"] if "cix" in x else self.env.get(x["ix"])
+                if isinstance(v, tuple) and v[0] == "agg" and isinstance(k, int) and not isinstance(k, bool) and k < len(v[3]):
+                    v = v[3][k]
+                else:
+                    v = ("opaque", "?")
             else:
                 v = ("opaque", "?")
         return v
@@ -151,6 +164,10 @@ class Walk:
                 lhs = st["lhs"]
                 if not lhs["p"]:
                     self.env[lhs["l"]] = v
+                else:
+                    from .core import place_str
+                    idx = [self.env.get(x["ix"]) for x in lhs["p"] if isinstance(x, dict) and "ix" in x]
+                    self.trace.append(("store", ".".join(x.get("n", "?") for x in lhs["p"] if isinstance(x, dict) and "f" in x), tuple(idx)))
             t = bl["term"]
             k = t["k"]
             if k == "return":
@@ -485,5 +502,211 @@ def visitmap(facts):
         else:
             r.bad(Violation("TABLE-VISITMAP", b.npath, site, b.file, b.line,
                             "VisitMap::%s table absent->%s present->%s, expected: %s" % (b.name, got[False], got[True], exp)))
+    r.floor = 6
+    return r
+
+
+# ---------------------------------------------------------------------------- Edges::next (Graph and StableGraph)
+def edges_next(facts):
+    r = RuleResult("TABLE-EDGES", "Edges::next of Graph and StableGraph, walked over (directed?, direction) x (first list has an edge / second list has a "
+                                  "normal edge / second list has a self-loop): a directed query walks only its own list and never swaps endpoints; an "
+                                  "undirected query walks both lists, swaps the endpoints exactly on the list opposite to the queried direction and skips "
+                                  "self-loops on the second list")
+    targets = [b for b in facts.bodies if b.kind == "AssocFn" and b.name == "next" and b.impl_trait == "core::iter::Iterator"
+               and b.impl_selfhead in ("adt:graph_impl::Edges", "adt:graph_impl::stable_graph::Edges")]
+    if len(targets) < 2:
+        r.bad(Violation("TABLE-EDGES", "Edges::next", "anchor-missing", "src/graph_impl/mod.rs", 0, "Edges::next of Graph/StableGraph not found - fail closed"))
+    for b in targets:
+        adt = b.impl_selfhead[4:]
+        a = facts.adts.get(adt)
+        fields = [f["name"] for f in a["variants"][0]["fields"]]
+        stable = "stable_graph" in adt
+        edge_fields = [f["name"] for f in facts.adts["graph_impl::Edge"]["variants"][0]["fields"]]
+        for directed in (True, False):
+            for d_idx, d_name in ((0, "Outgoing"), (1, "Incoming")):
+                for scen in ("A", "B", "C"):
+                    gets = {"n1": 0}
+
+                    def edge(src):
+                        vals = {"weight": ("agg", "core::option::Option", "Some", [("opaque", "w")], 1) if stable else ("opaque", "w"),
+                                "next": ("agg", "array", "", [("opaque", "E0"), ("opaque", "E1")], None),
+                                "node": ("agg", "array", "", [("opaque", src), ("opaque", "tgt")], None)}
+                        return ("agg", "graph_impl::Edge", "Edge", [vals[f] for f in edge_fields], 0)
+
+                    def oracle(w, f, args, t):
+                        np_ = norm_path(f["path"])
+                        nm = last_seg(np_)
+                        if nm == "is_directed":
+                            return directed
+                        if nm == "opposite":
+                            v = deref(args[0])
+                            return ("enum", 1 - v[1], "Incoming" if v[1] == 0 else "Outgoing")
+                        if nm == "unwrap_or":
+                            v = deref(args[0])
+                            if isinstance(v, tuple) and v[0] == "agg":
+                                return v[3][0]
+                            return args[1]
+                        if nm == "is_none":
+                            v = deref(args[0])
+                            return isinstance(v, tuple) and v[0] == "enum" and v[2] == "None"
+                        if nm in ("eq", "ne"):
+                            x, y = deref(args[0]), deref(args[1])
+
+                            def norm(z):
+                                if isinstance(z, tuple) and z[0] == "agg" and z[1] == "core::option::Option":
+                                    return ("Some", norm(z[3][0]))
+                                if isinstance(z, tuple) and z[0] == "enum":
+                                    return z[2]
+                                return z
+                            res = norm(x) == norm(y)
+                            return res if nm == "eq" else not res
+                        if nm == "index":
+                            v = deref(args[0])
+                            return ("opaque", "idx:%s" % (v[1] if isinstance(v, tuple) and len(v) > 1 else "?"))
+                        if nm == "get":
+                            k = deref(args[1])
+                            which = 0 if k == ("opaque", "idx:N0") else (1 if k == ("opaque", "idx:N1") else None)
+                            w.trace.append(("get", which))
+                            if which == 0:
+                                if scen == "A":
+                                    return ("agg", "core::option::Option", "Some", [("ref", edge("src"))], 1)
+                                return ("enum", 0, "None")
+                            if which == 1:
+                                gets["n1"] += 1
+                                if gets["n1"] > 1 or scen == "A":
+                                    return ("enum", 0, "None")
+                                return ("agg", "core::option::Option", "Some", [("ref", edge("SKIP" if scen == "C" else "src"))], 1)
+                            raise Unknown("get(%r)" % (k,))
+                        if nm == "swap_pair":
+                            w.trace.append(("swap",))
+                            return ("opaque", "swapped")
+                        if nm in ("edge_index", "new", "as_ref", "unwrap", "is_some"):
+                            if nm == "is_some":
+                                v = deref(args[0])
+                                return isinstance(v, tuple) and v[0] == "agg"
+                            if nm == "as_ref":
+                                v = deref(args[0])
+                                if isinstance(v, tuple) and v[0] == "agg":
+                                    return ("agg", v[1], v[2], [("ref", v[3][0])], v[4])
+                                return v
+                            if nm == "unwrap":
+                                v = deref(args[0])
+                                return v[3][0] if isinstance(v, tuple) and v[0] == "agg" else ("opaque", "?")
+                            return ("opaque", nm)
+                        raise Unknown("call %s" % np_)
+                    vals = {"skip_start": ("opaque", "SKIP"), "edges": ("opaque", "EDGES"),
+                            "next": ("agg", "array", "", [("opaque", "N0"), ("opaque", "N1")], None),
+                            "direction": ("enum", d_idx, d_name), "ty": ("opaque", "ty")}
+                    selfv = ("agg", adt, "Edges", [vals.get(f, ("opaque", f)) for f in fields], 0)
+                    site = "%s:%s:%s:%s" % ("stable" if stable else "graph", "directed" if directed else "undirected", d_name, scen)
+                    try:
+                        w = Walk(facts, b, oracle, {1: ("ref", selfv)})
+                        res = w.run(limit=600)
+                    except Unknown as e:
+                        r.silent += 1
+                        r.ok(b.npath, site, "unrecognised construct (%s): silent" % e)
+                        continue
+                    stores = [x[2][0] if x[2] else None for x in w.trace if x[0] == "store" and x[1].endswith("next")]
+                    swaps = sum(1 for x in w.trace if x[0] == "swap")
+                    some = isinstance(res, tuple) and res[0] == "agg" and res[2] == "Some"
+                    # expectation
+                    own = d_idx
+                    if directed:
+                        if scen == "A":
+                            exp = ([0], 0, True) if own == 0 else ([], 0, False)
+                        elif scen == "B":
+                            exp = ([], 0, False) if own == 0 else ([1], 0, True)
+                        else:
+                            exp = ([], 0, False) if own == 0 else ([1], 0, True)
+                    else:
+                        swap_on = 1 - own       # the list opposite to the queried direction is reported swapped
+                        if scen == "A":
+                            exp = ([0], 1 if swap_on == 0 else 0, True)
+                        elif scen == "B":
+                            exp = ([1], 1 if swap_on == 1 else 0, True)
+                        else:
+                            exp = ([1], 0, False)
+                    got = (stores, swaps, some)
+                    if got == exp:
+                        r.ok(b.npath, site, "cursor stores %s, swaps %d, yields %s" % got)
+                    else:
+                        r.bad(Violation("TABLE-EDGES", b.npath, site, b.file, b.line,
+                                        "Edges::next for a %s graph queried %s (scenario %s: %s): advanced cursors %s, endpoint swaps %d, yielded an edge: %s; "
+                                        "expected cursors %s, swaps %d, yield %s" % ("directed" if directed else "undirected", d_name, scen,
+                                                                                       {"A": "first list has an edge", "B": "only the second list has an edge", "C": "the second list holds only a self-loop"}[scen],
+                                                                                       got[0], got[1], got[2], exp[0], exp[1], exp[2]), {"trace": [str(x) for x in w.trace]}))
+    r.floor = 20
+    return r
+
+
+def neighbors_next(facts):
+    r = RuleResult("TABLE-NEIGHBORS", "Neighbors::next of Graph and StableGraph: the outgoing list (cursor next[0]) reports each edge's target node[1], the "
+                                      "incoming list (cursor next[1]) reports its source node[0] and skips an edge whose source is skip_start (self-loop "
+                                      "seen from an undirected/both-lists walk)")
+    targets = [b for b in facts.bodies if b.kind == "AssocFn" and b.name == "next" and b.impl_trait == "core::iter::Iterator"
+               and b.impl_selfhead in ("adt:graph_impl::Neighbors", "adt:graph_impl::stable_graph::Neighbors")]
+    if len(targets) < 2:
+        r.bad(Violation("TABLE-NEIGHBORS", "Neighbors::next", "anchor-missing", "src/graph_impl/mod.rs", 0, "Neighbors::next of Graph/StableGraph not found - fail closed"))
+    edge_fields = [f["name"] for f in facts.adts["graph_impl::Edge"]["variants"][0]["fields"]]
+    for b in targets:
+        adt = b.impl_selfhead[4:]
+        fields = [f["name"] for f in facts.adts[adt]["variants"][0]["fields"]]
+        stable = "stable_graph" in adt
+        for scen, exp in (("A", ([0], "tgt")), ("B", ([1], "src")), ("C", ([1], None))):
+            gets = {"n1": 0}
+
+            def edge(src):
+                vals = {"weight": ("agg", "core::option::Option", "Some", [("opaque", "w")], 1) if stable else ("opaque", "w"),
+                        "next": ("agg", "array", "", [("opaque", "E0"), ("opaque", "E1")], None),
+                        "node": ("agg", "array", "", [("opaque", src), ("opaque", "tgt")], None)}
+                return ("agg", "graph_impl::Edge", "Edge", [vals[f] for f in edge_fields], 0)
+
+            def oracle(w, f, args, t):
+                nm = last_seg(norm_path(f["path"]))
+                if nm in ("is_some", "is_none"):
+                    v = deref(args[0])
+                    some = isinstance(v, tuple) and v[0] == "agg"
+                    return some if nm == "is_some" else not some
+                if nm in ("eq", "ne"):
+                    res = deref(args[0]) == deref(args[1])
+                    return res if nm == "eq" else not res
+                if nm == "index":
+                    v = deref(args[0])
+                    return ("opaque", "idx:%s" % (v[1] if isinstance(v, tuple) and len(v) > 1 else "?"))
+                if nm == "get":
+                    k = deref(args[1])
+                    which = 0 if k == ("opaque", "idx:N0") else (1 if k == ("opaque", "idx:N1") else None)
+                    if which == 0:
+                        return ("agg", "core::option::Option", "Some", [("ref", edge("src"))], 1) if scen == "A" else ("enum", 0, "None")
+                    if which == 1:
+                        gets["n1"] += 1
+                        if gets["n1"] > 1 or scen == "A":
+                            return ("enum", 0, "None")
+                        return ("agg", "core::option::Option", "Some", [("ref", edge("SKIP" if scen == "C" else "src"))], 1)
+                    raise Unknown("get(%r)" % (k,))
+                raise Unknown("call %s" % f["path"])
+            vals = {"skip_start": ("opaque", "SKIP"), "edges": ("opaque", "EDGES"),
+                    "next": ("agg", "array", "", [("opaque", "N0"), ("opaque", "N1")], None)}
+            selfv = ("agg", adt, "Neighbors", [vals.get(f, ("opaque", f)) for f in fields], 0)
+            site = "%s:%s" % ("stable" if stable else "graph", scen)
+            try:
+                w = Walk(facts, b, oracle, {1: ("ref", selfv)})
+                res = w.run(limit=600)
+            except Unknown as e:
+                r.silent += 1
+                r.ok(b.npath, site, "unrecognised construct (%s): silent" % e)
+                continue
+            stores = [x[2][0] if x[2] else None for x in w.trace if x[0] == "store" and x[1].endswith("next")]
+            got = None
+            if isinstance(res, tuple) and res[0] == "agg" and res[2] == "Some":
+                v = deref(res[3][0])
+                got = v[1] if isinstance(v, tuple) and v[0] == "opaque" else str(v)
+            if (stores, got) == exp:
+                r.ok(b.npath, site, "cursor stores %s, reports %s" % (stores, got))
+            else:
+                r.bad(Violation("TABLE-NEIGHBORS", b.npath, site, b.file, b.line,
+                                "Neighbors::next scenario %s (%s): advanced cursors %s and reported %s; expected cursors %s and %s"
+                                % (scen, {"A": "outgoing list has an edge", "B": "only the incoming list has an edge", "C": "incoming list holds a self-loop of skip_start"}[scen],
+                                   stores, got, exp[0], exp[1])))
     r.floor = 6
     return r
